@@ -212,10 +212,23 @@ func c14Case(c *core.C) {
 		}
 	case "subsecond":
 		b = gen.Clone(a)
-		for _, t := range []**timestampT{&b.ReleaseDate, &b.BuildDate, &b.ValidUntilDate} {
-			if *t != nil {
+		straddle := r.Intn(2) == 0
+		for i, t := range []**timestampT{&b.ReleaseDate, &b.BuildDate, &b.ValidUntilDate} {
+			if *t == nil {
+				continue
+			}
+			if straddle {
+				// less than a second apart but in different seconds: still a difference "to the second"
+				at := []*timestampT{a.ReleaseDate, a.BuildDate, a.ValidUntilDate}[i]
+				at.Nanos = int32(900000000 + r.Intn(99999999))
+				(*t).Seconds = at.Seconds + 1
+				(*t).Nanos = int32(r.Intn(100000000))
+			} else {
 				(*t).Nanos = int32(r.Intn(1000000000))
 			}
+		}
+		if straddle {
+			c.Cover("dates-straddling-a-second-boundary")
 		}
 	}
 	c.Cover("kind:" + kind)
